@@ -82,6 +82,12 @@ Docs == <<
     \* 16  parseFragment(container=div)  ["<p>a<table>b</table>c"]     the tree depends on the compatibility mode (reset per call)
     [bytes |-> FALSE, frag |-> "div", reads |-> << <<S("p"), C(<<97>>), S("table"), C(<<98>>), E("table")>>,
                             <<C(<<99>>)>>,
+                            <<EOF>> >>],
+    \* 17  parseFragment(src, "TABLE")  ["ab<", "!--c-->", " "]      document 10, the container upper case and positional
+    [bytes |-> FALSE, frag |-> "TABLE", reads |-> << <<C(<<97, 98>>)>>,
+                            <<K(<<99>>)>>,
+                            <<>>,
+                            <<W(<<32>>)>>,
                             <<EOF>> >>]
 >>
 
